@@ -3,6 +3,7 @@ package core
 import (
 	"fmt"
 	"go/token"
+	"go/types"
 	"sort"
 	"strings"
 
@@ -167,6 +168,13 @@ func (w *provWalker) walk(v ssa.Value, depth int) {
 		}
 	case *ssa.Field:
 		if fr, ok := FieldOfAddr(x); ok {
+			// a field of a struct value that was put together locally: what was stored into that field
+			if vals, ok := FieldContents(x.X, x.Field, 0); ok {
+				for _, fv := range vals {
+					w.walk(fv, depth)
+				}
+				return
+			}
 			w.add("field", fr.String(), v)
 			// continue into the aggregate when it is a local value
 			w.walk(x.X, depth)
@@ -216,6 +224,22 @@ func (w *provWalker) walkLoad(x *ssa.UnOp, depth int) {
 	switch a := x.X.(type) {
 	case *ssa.FieldAddr:
 		if fr, ok := FieldOfAddr(a); ok {
+			// a struct kept in a cell that a function literal captured: field-sensitive contents
+			var cell *ssa.Alloc
+			switch bx := a.X.(type) {
+			case *ssa.FreeVar:
+				cell = cellOfAddr(bx)
+			case *ssa.Alloc:
+				cell = bx
+			}
+			if cell != nil {
+				if vals, ok := cellFieldContents(cell, a.Field, 0); ok {
+					for _, fv := range vals {
+						w.walk(fv, depth)
+					}
+					return
+				}
+			}
 			w.add("field", fr.String(), x)
 			// local aggregate: follow stores to the same field of the same base
 			if base, ok := a.X.(*ssa.Alloc); ok {
@@ -477,4 +501,126 @@ func (p *Prog) StaticCallers(fn *ssa.Function) []*ssa.CallCommon {
 func (p *Prog) CallInstr(site *ssa.CallCommon) ssa.CallInstruction {
 	p.StaticCallers(nil)
 	return p.callInstr[site]
+}
+
+// FieldContents resolves field #idx of the struct value v to the values that
+// were stored into that field, when v was put together locally: a load of a
+// local cell (stores to the field's address, or whole-struct stores whose
+// value is resolved in turn), a phi of such values, the result of a helper of
+// the module that returns such a value.  ok is false when some source of v is
+// not resolved, or the struct escapes.
+func FieldContents(v ssa.Value, idx int, depth int) (vals []ssa.Value, ok bool) {
+	if depth > 4 {
+		return nil, false
+	}
+	switch x := v.(type) {
+	case *ssa.Phi:
+		for _, e := range x.Edges {
+			vs, ok := FieldContents(e, idx, depth+1)
+			if !ok {
+				return nil, false
+			}
+			vals = append(vals, vs...)
+		}
+		return vals, len(vals) > 0
+	case *ssa.UnOp:
+		if x.Op != token.MUL {
+			return nil, false
+		}
+		switch a := x.X.(type) {
+		case *ssa.Alloc:
+			return cellFieldContents(a, idx, depth+1)
+		case *ssa.FreeVar:
+			if cell := cellOfAddr(a); cell != nil {
+				return cellFieldContents(cell, idx, depth+1)
+			}
+		}
+	case *ssa.Call:
+		h := helperOf(x)
+		if h == nil || h.Signature.Results().Len() != 1 {
+			return nil, false
+		}
+		for _, b := range h.Blocks {
+			if len(b.Instrs) == 0 || b == h.Recover {
+				continue
+			}
+			if ret, isRet := AsReturn(b.Instrs[len(b.Instrs)-1]); isRet {
+				vs, ok := FieldContents(Res(ret, 0), idx, depth+1)
+				if !ok {
+					return nil, false
+				}
+				vals = append(vals, vs...)
+			}
+		}
+		return vals, len(vals) > 0
+	}
+	return nil, false
+}
+
+// cellFieldContents: the values stored into field #idx of the struct kept in
+// the local cell.
+func cellFieldContents(cell *ssa.Alloc, idx int, depth int) (vals []ssa.Value, ok bool) {
+	if depth > 4 {
+		return nil, false
+	}
+	if _, isStruct := cell.Type().Underlying().(*types.Pointer).Elem().Underlying().(*types.Struct); !isStruct {
+		return nil, false
+	}
+	var visit func(addr ssa.Value, fn *ssa.Function) bool
+	visit = func(addr ssa.Value, fn *ssa.Function) bool {
+		refs := addr.Referrers()
+		if refs == nil {
+			return false
+		}
+		for _, u := range *refs {
+			switch y := u.(type) {
+			case *ssa.DebugRef:
+			case *ssa.FieldAddr:
+				if y.Field != idx {
+					continue
+				}
+				for _, u2 := range Users(y) {
+					switch z := u2.(type) {
+					case *ssa.Store:
+						if z.Addr == ssa.Value(y) {
+							vals = append(vals, z.Val)
+						}
+					case *ssa.UnOp, *ssa.DebugRef:
+					default:
+						return false // the field's address escapes
+					}
+				}
+			case *ssa.Store:
+				if y.Addr != addr {
+					return false // the cell's address is stored somewhere
+				}
+				vs, ok := FieldContents(y.Val, idx, depth+1)
+				if !ok {
+					return false
+				}
+				vals = append(vals, vs...)
+			case *ssa.UnOp:
+			case *ssa.MakeClosure:
+				// captured by a function literal: the literal's uses of the free variable
+				lit, _ := y.Fn.(*ssa.Function)
+				if lit == nil {
+					return false
+				}
+				for i, bnd := range y.Bindings {
+					if bnd == addr && i < len(lit.FreeVars) {
+						if !visit(lit.FreeVars[i], lit) {
+							return false
+						}
+					}
+				}
+			default:
+				return false
+			}
+		}
+		return true
+	}
+	if !visit(cell, cell.Parent()) {
+		return nil, false
+	}
+	return vals, len(vals) > 0
 }
